@@ -49,6 +49,7 @@ BOUNDED.update({
     "C07": ["prop:relation"],
     "C08": ["engine:small", "init:small"],
     "C10": ["engine:small"],
+    "C20": ["models:small"],
     "C12": ["engine:small"],
     "C13": ["engine:small", "init:small"],
     "C19": ["init:small"],
@@ -91,8 +92,10 @@ claim("C08", "Shrink-only and frame clauses of BC and shaving (postconditions), 
       "BC queues the watchers of every bound it moves and re-filters a propagator whose aliased views were intersected. The fixpoint itself (re-executing any enabled constraint neither fails nor prunes) and the trigger clause of Problem.init are "
       "checked by bounded suites (fixpoint monitor after every propagation pass of the real solver).",
       "contract-based deductive verification + bounded fixpoint monitor", level="other")
-for _p in ["C20"]:
-    NOT_APPLICABLE[_p] = "check under construction in this build (contracts not yet registered); see DESIGN.md section 4"
+claim("C20", "Bounded: every shipped model (queens, magic sequence, magic square, latin square (+RC, +givens), circuit, Schur (with/without symmetry breaking), QG5, BIBD, donald, sudoku, knapsack, TSP, Golomb) "
+      "is solved by the real solver at small sizes under three configurations; every solution is validated against the problem definition and counts/optima are compared with brute force or the literature. "
+      "No per-model deductive lemma is claimed in this build; C01/C02 carry the general argument.",
+      "bounded run-time validation of the shipped models (no deductive claim)", level="other")
 claim("C05", "Generic propagator contract clauses P1 (contraction) and P2 (every supported tuple kept; inconsistency only when no tuple) as postconditions of each compute_domains_X, "
       "discharged by z3 from VCs generated from the real source: unbounded-arity proofs (loop invariants) for the linear and min/max/and/dummy propagators, "
       "arity-bounded proofs (unroll mode, values symbolic) for the counting, element and lexicographic propagators.",
